@@ -209,46 +209,53 @@ func runListing(tmp string, c LCase) lres {
 	comp := litestream.NewCompactor(fc, quiet)
 	floor := -1
 	var opErr error
-	switch c.Op {
-	case "snapdb", "repsnap":
-		var fl ltx.TXID
-		fl, opErr = db.EnforceSnapshotRetention(ctx, epoch.Add(time.Duration(c.Thr)*time.Millisecond))
-		floor = int(fl)
-	case "snapcomp":
-		var fl ltx.TXID
-		fl, opErr = comp.EnforceSnapshotRetention(ctx, retention)
-		floor = int(fl)
-	case "txid":
-		opErr = comp.EnforceRetentionByTXID(ctx, c.Level, ltx.TXID(c.TX))
-	case "txiddb":
-		if opErr = db.Open(); opErr == nil {
-			opErr = db.EnforceRetentionByTXID(ctx, c.Level, ltx.TXID(c.TX))
+	func() {
+		defer func() {
+			if p := recover(); p != nil {
+				opErr = fmt.Errorf("PANIC: %v", p)
+			}
+		}()
+		switch c.Op {
+		case "snapdb", "repsnap":
+			var fl ltx.TXID
+			fl, opErr = db.EnforceSnapshotRetention(ctx, epoch.Add(time.Duration(c.Thr)*time.Millisecond))
+			floor = int(fl)
+		case "snapcomp":
+			var fl ltx.TXID
+			fl, opErr = comp.EnforceSnapshotRetention(ctx, retention)
+			floor = int(fl)
+		case "txid":
+			opErr = comp.EnforceRetentionByTXID(ctx, c.Level, ltx.TXID(c.TX))
+		case "txiddb":
+			if opErr = db.Open(); opErr == nil {
+				opErr = db.EnforceRetentionByTXID(ctx, c.Level, ltx.TXID(c.TX))
+			}
+		case "l0db", "repl0":
+			db.L0Retention = retention
+			if c.EN == 0 && c.Op == "l0db" {
+				db.L0Retention = 0
+			}
+			opErr = db.EnforceL0RetentionByTime(ctx)
+		case "l0comp":
+			r := retention
+			if c.EN == 0 {
+				r = 0
+			}
+			opErr = comp.EnforceL0Retention(ctx, r)
+		case "cascade", "repcascade":
+			st := litestream.NewStore([]*litestream.DB{db}, levelsN(c.LV))
+			st.Logger = quiet
+			db.SetLogger(quiet)
+			st.SnapshotRetention = retention
+			st.RetentionEnabled = enabled
+			db.RetentionEnabled = enabled
+			if opErr = db.Open(); opErr == nil {
+				opErr = st.EnforceSnapshotRetention(ctx, db)
+			}
+		default:
+			opErr = fmt.Errorf("unknown op %q", c.Op)
 		}
-	case "l0db", "repl0":
-		db.L0Retention = retention
-		if c.EN == 0 && c.Op == "l0db" {
-			db.L0Retention = 0
-		}
-		opErr = db.EnforceL0RetentionByTime(ctx)
-	case "l0comp":
-		r := retention
-		if c.EN == 0 {
-			r = 0
-		}
-		opErr = comp.EnforceL0Retention(ctx, r)
-	case "cascade", "repcascade":
-		st := litestream.NewStore([]*litestream.DB{db}, levelsN(c.LV))
-		st.Logger = quiet
-		db.SetLogger(quiet)
-		st.SnapshotRetention = retention
-		st.RetentionEnabled = enabled
-		db.RetentionEnabled = enabled
-		if opErr = db.Open(); opErr == nil {
-			opErr = st.EnforceSnapshotRetention(ctx, db)
-		}
-	default:
-		opErr = fmt.Errorf("unknown op %q", c.Op)
-	}
+	}()
 	slow := time.Since(t0) > guardMs/2*time.Millisecond
 	after, err := listDir(fc, epoch)
 	if err != nil {
@@ -600,6 +607,9 @@ func evalListing(tmp string, drv *hx.Driver, c LCase, res *hx.Result) (kind, sig
 		}
 		res.Sample(map[string]string{"line": line, "impl": r.out})
 	}
+	if strings.HasPrefix(r.out, "err PANIC") {
+		return "violation", "C07/retention-panics", fmt.Sprintf("%s: %s", c.Op, r.out)
+	}
 	if oracleApplies(c) {
 		if s, w := listingOracle(tmp, c, r); s != "" {
 			return "violation", "C07/" + s, w
@@ -863,13 +873,20 @@ func runHistory(tmp string, drv *hx.Driver, h HCase, res *hx.Result) (kind, sig,
 			t0 := time.Now()
 			thr := int(t0.Add(-retention).Sub(x.epoch).Milliseconds())
 			var line string
-			if op.Op == "cascade" {
-				line = fmt.Sprintf("rep OP=cascade EN=%d THR=%d LV=%d F=%s LOC=", b2i(h.Enabled), thr, h.LV, fmtFiles(before, true))
-				err = x.store.EnforceSnapshotRetention(ctx, x.db)
-			} else {
-				line = fmt.Sprintf("rep OP=l0ret EN=%d THR=%d LV=%d F=%s LOC=", b2i(h.Enabled), thr, h.LV, fmtFiles(before, true))
-				err = x.db.EnforceL0RetentionByTime(ctx)
-			}
+			func() {
+				defer func() {
+					if p := recover(); p != nil {
+						err = fmt.Errorf("PANIC: %v", p)
+					}
+				}()
+				if op.Op == "cascade" {
+					line = fmt.Sprintf("rep OP=cascade EN=%d THR=%d LV=%d F=%s LOC=", b2i(h.Enabled), thr, h.LV, fmtFiles(before, true))
+					err = x.store.EnforceSnapshotRetention(ctx, x.db)
+				} else {
+					line = fmt.Sprintf("rep OP=l0ret EN=%d THR=%d LV=%d F=%s LOC=", b2i(h.Enabled), thr, h.LV, fmtFiles(before, true))
+					err = x.db.EnforceL0RetentionByTime(ctx)
+				}
+			}()
 			if err != nil {
 				return "violation", "C07/retention-error", fmt.Sprintf("step %d: %s returned %v", i, op.Op, err)
 			}
@@ -976,9 +993,9 @@ func shrinkHistory(h HCase, fails func(HCase) bool) HCase {
 }
 
 type payload struct {
-	Stream  string  `json:"stream"`
-	Listing *LCase  `json:"listing,omitempty"`
-	History *HCase  `json:"history,omitempty"`
+	Stream  string `json:"stream"`
+	Listing *LCase `json:"listing,omitempty"`
+	History *HCase `json:"history,omitempty"`
 }
 
 func main() {
@@ -1027,11 +1044,18 @@ func main() {
 	if o.Tier == "thorough" {
 		nList, nHist, hLen = 12000, 500, 60
 	}
+	nViol, nDis := 0, 0
 	report := func(kind, sig, what string, p payload) {
-		res.AddFinding(kind, sig, what, p)
 		if kind == "disagreement" {
 			res.DisagreementsChecked++
+			nDis++
+			if nDis > 3 { // keep searching for a property violation, do not flood
+				return
+			}
+		} else {
+			nViol++
 		}
+		res.AddFinding(kind, sig, what, p)
 	}
 	// corpus first
 	if o.Corpus != "" {
@@ -1062,10 +1086,15 @@ func main() {
 	}
 	rnd := hx.NewRand(o.Seed)
 	lr := rnd.Fork()
-	for i := 0; i < nList && len(res.Findings) < 6; i++ {
+	for i := 0; i < nList && nViol < 3; i++ {
 		c := genListing(lr)
 		k, s, what := evalListing(tmp, drv, c, res)
 		if k == "" {
+			continue
+		}
+		if k == "disagreement" && nDis >= 3 {
+			nDis++
+			res.DisagreementsChecked++
 			continue
 		}
 		c = shrinkListing(c, func(d LCase) bool {
@@ -1079,11 +1108,16 @@ func main() {
 		report(k, s, what+" | "+c.line(), payload{Stream: "listing", Listing: &c})
 	}
 	hr := rnd.Fork()
-	for i := 0; i < nHist && len(res.Findings) < 6; i++ {
+	for i := 0; i < nHist && nViol < 3; i++ {
 		h := genHistory(hr, hLen)
 		k, s, what := runHistory(tmp, drv, h, res)
 		res.Count("history")
 		if k == "" {
+			continue
+		}
+		if k == "disagreement" && nDis >= 3 {
+			nDis++
+			res.DisagreementsChecked++
 			continue
 		}
 		h = shrinkHistory(h, func(d HCase) bool {
